@@ -185,7 +185,8 @@ func decodeKeyCharByUnicodeRune(buf []byte, cursor int64) ([]byte, int64, error)
 	if utf16.IsSurrogate(r) {
 		cursor += defaultOffset
 		if cursor+surrogateOffset >= int64(len(buf)) || buf[cursor] != '\\' || buf[cursor+1] != 'u' {
-			return []byte(string(unicode.ReplacementChar)), cursor + defaultOffset - 1, nil
+			// the escape ends with its fourth digit
+			return []byte(string(unicode.ReplacementChar)), cursor - 1, nil
 		}
 		cursor += 2
 		r2 := unicodeToRune(buf[cursor : cursor+defaultOffset])
@@ -587,10 +588,12 @@ func decodeKeyCharByUnicodeRuneStream(s *Stream) ([]byte, error) {
 			}
 		}
 		if s.cursor+surrogateOffset >= s.length || s.buf[s.cursor] != '\\' || s.buf[s.cursor+1] != 'u' {
-			s.cursor += defaultOffset - 1
+			// the escape ends with its fourth digit
+			s.cursor--
 			return []byte(string(unicode.ReplacementChar)), nil
 		}
-		r2 := unicodeToRune(s.buf[s.cursor+defaultOffset+2 : s.cursor+surrogateOffset])
+		s.cursor += 2
+		r2 := unicodeToRune(s.buf[s.cursor : s.cursor+defaultOffset])
 		if r := utf16.DecodeRune(r, r2); r != unicode.ReplacementChar {
 			s.cursor += defaultOffset - 1
 			return []byte(string(r)), nil
